@@ -140,7 +140,9 @@ def call_entry(rng, entry, cls, model, invalid=True, warm=False):
             mem = pv.Membrane(name="v", ideal_experiments=pv.IdealExperiments(experiments=exps))
             if entry == "activation_energy":
                 return mem.calculate_activation_energy(comp)
-            return mem.get_permeance(rng.uniform(330.0, 335.0), comp)
+            # away from the experiment - by ten kelvin, or by a hair (next to the measured temperature is not AT it)
+            tq = rng.uniform(330.0, 335.0) if rng.random() < 0.5 else 320.0 + rng.choice([-1.0, 1.0]) * gen.logu(rng, 1e-9, 0.19)
+            return mem.get_permeance(tq, comp)
         raise KeyError(entry)
 
     if both and warm:
